@@ -251,7 +251,10 @@ def run(ctx):
         rng.shuffle(order)
         runs_go = [i for i in order if any(u["id"] == i and u["status"] == "ok" for u in batch.units.values())]
         deep_ids = sorted((runs_go or order)[:1])          # an entry whose Go package compiles, so that both languages see triples
-        pair_ids = sorted(set(order[:max(1, len(order) // 3)]) | set(deep_ids))
+        # pairs: a seeded third of the entries, the triples' entry, and every entry with an appending / indexing option (where the
+        # second call must ADD to what the first one left)
+        accum = [i for i in batch.ids if any(a["m"] != "direct" for o in batch.cat[i]["B"]["Root"]["opts"] for a in o["asgs"])]
+        pair_ids = sorted(set(order[:max(1, len(order) // 3)]) | set(deep_ids) | set(accum))
         for ids_, ml in ((pair_ids, 2), (deep_ids, 3)):
             # a window of the entry's options (rotating with the seed): 8 for pairs, 5 for triples
             more, _ = bc.emit_cases(ctx, ids_, maxlen=ml, win=5 if ml == 3 else 8, start=ctx.seed)
@@ -353,7 +356,9 @@ def run(ctx):
             exp = json.loads(json.dumps(td))
             for r_ in e_["rules"]:
                 if r_["k"] == "init" and r_["obj"] == key_:
-                    exp = bc.apply_at(e_["S"], D[(pkg_, lang_)], key_, e_["S"][key_], exp, r_["fields"][1:], "direct", r_["fields"][0], None)
+                    ft_ = bc.unwrap(e_["S"], bc.type_at(e_["S"], key_, e_["S"][key_], r_["fields"][1:])[1])
+                    exp = bc.apply_at(e_["S"], D[(pkg_, lang_)], key_, e_["S"][key_], exp, r_["fields"][1:], "direct",
+                                      bc.const_of_text(ft_, r_["fields"][0]), None)
             fresh = D[(pkg_, lang_)][key_]
             viol = set() if bc.same_obj(exp, fresh) else {"Fresh"}
             try:
@@ -385,9 +390,13 @@ def run(ctx):
         if lang == "go":
             r = gres[cid]
             if r.get("glue_err"):
-                if r["glue_err"].startswith("glue: cannot decode") and "cannot unmarshal number -" in r["glue_err"] and "of type uint" in r["glue_err"]:
-                    # the input format turned `int & >= 0` into an unsigned type: a negative argument cannot be written
-                    cnt["argument_not_expressible_in_this_api:negative-into-unsigned"] += 1
+                if r["glue_err"].startswith("glue: cannot decode"):
+                    # The generated parameter type cannot carry this argument value: the (option, value) pair is not expressible
+                    # in this unit's API - skipped and counted, never a verdict and never the end of the run. The usual case: the
+                    # input format turned `int & >= 0` into an unsigned type (uint64, or a NAMED type over it such as Port) and
+                    # the argument is negative.
+                    neg = "cannot unmarshal number -" in r["glue_err"]
+                    cnt["argument_not_expressible_in_this_api:%s" % ("negative-into-unsigned" if neg else "not-decodable-into-the-parameter-type")] += 1
                     continue
                 harness_errs["go: " + r["glue_err"][:100]] += 1
                 continue
